@@ -148,6 +148,7 @@ struct Sim {
     ar.nb_owned.assign((size_t)ar.size, 1);
     std::vector<int> es, ts;
     for (const Step& s : plan.steps) {
+      if (s.kind == ST_USERW) es.push_back(s.slot);
       if (s.kind == ST_OP) {
         op_slots(s.op, es, ts);
         if (s.dst >= 0) { ValKind vk = op_value_kind(s.op.op); if (vk == VK_ELEM) es.push_back(s.dst); if (vk == VK_TAN) ts.push_back(s.dst); }
@@ -329,6 +330,32 @@ struct Sim {
     // slots [use_ne, NE) and [use_nt, NT) are never named by an operation: they belong to the neighbour writer
     const int use_ne = 2 + (int)rng.below(5), use_nt = 2 + (int)rng.below(3);
     for (int i = 0; i < len; ++i) {
+      if ((vt->caps & CAP_NORMALIZE) && rng.chance(0.06)) {
+        // the user drops un-normalised rotation data into a buffer on which views already exist, optionally copies
+        // it into an owning object (NDEBUG builds: an exact copy), then normalises it through the long-lived view
+        const int slot = (int)rng.below(use_ne);
+        ElemSpec sp; sp.angle = rng.uniform(0.1, 2.9); sp.lin_lo = 1e-2; sp.lin_hi = 10; sp.norm_scale = rng.uniform(0.5, 2.0);
+        double c[32]; gen_elem(vt, rng, sp, c);
+        if (rng.chance(0.15)) {
+          // degenerate data: an all-zero rotation part; normalize() through the view must do exactly what it does on
+          // an owning object with the same coefficients (whatever that is); the slot gets valid data again afterwards
+          double z[32]; for (int q = 0; q < vt->rep; ++q) z[q] = c[q];
+          for (int k = 0; k < vt->n_unit; ++k) for (int q = 0; q < vt->unit[k].len; ++q) z[vt->unit[k].off + q] = 0.0;
+          plan.steps.push_back(make_set(ST_USERW, 0, slot, z, vt->rep));
+          Step nz = make_op(0, OP_M_NORMALIZE, slot, 0, -1); nz.op.ka = K_MAP;
+          plan.steps.push_back(nz);
+        }
+        Step w = make_set(ST_USERW, 0, slot, c, vt->rep);
+        plan.steps.push_back(w);
+        if (!is_asan() && rng.chance(0.5)) {
+          Step cs = make_op(0, OP_CONSTRUCT, slot, 0, -1); cs.op.ka = (uint8_t)(rng.chance(0.5) ? K_MAP : K_CMAP);
+          plan.steps.push_back(cs);
+        }
+        Step ns = make_op(0, OP_M_NORMALIZE, slot, 0, -1); ns.op.ka = K_MAP;
+        if (rng.chance(0.2)) ns.op.variant |= V_FRESH;
+        plan.steps.push_back(ns);
+        continue;
+      }
       for (;;) {
         int op = (int)rng.below(OP__END);
         const OpInfo& inf = op_info(op);
@@ -397,6 +424,13 @@ struct Sim {
 
   void run_steps() {
     for (size_t i = 0; i < plan.steps.size(); ++i) {
+      if (plan.steps[i].kind == ST_USERW) {
+        // the user writes the buffer directly (memcpy into his own memory), behind every view that exists on it
+        const Step& s = plan.steps[i];
+        vt->set_elem(V, s.slot, 2, s.vals.data()); vt->set_elem(M, s.slot, 2, s.vals.data());
+        res.add("f.user_direct_write", 1);
+        continue;
+      }
       if (plan.steps[i].kind != ST_OP) continue;
       idx = (long)i;
       if (threaded) vs_yield(VS_R_OPB, (unsigned)i);
